@@ -546,6 +546,11 @@ func genC09(t *rapid.T) *Scenario {
 		sc.Mode = rapid.SampledFrom([]string{"pure", "try", "try", "lift"}).Draw(t, "mode")
 	case "fork.fmap":
 		sc.Mode = rapid.SampledFrom([]string{"tryf", "tryf", "liftf"}).Draw(t, "mode")
+	case "fork.filter", "fork.partition":
+		sc.Mode = "pure"
+		if rapid.IntRange(0, 3).Draw(t, "errPred") == 0 {
+			sc.Mode = rapid.SampledFrom([]string{"lift", "try"}).Draw(t, "mode") // the predicate returns errors for the Fail values
+		}
 	default:
 		sc.Mode = "pure"
 	}
